@@ -402,6 +402,39 @@ def stepA (st : StA) (ts : List String) : StA × String :=
           | _, _ => true)
         pure ({ st with M := M }, s!"x={changed.length} nh={((M.chart? cid).map (·.polytope.length)).getD 0} " ++ out)
       | [] => none
+    | "own" :: rest => do
+      -- AtlasStateSpace::owningChart: candidates in the library's nearestR order; far = distance(state, phi(psiInverse(state)))
+      -- is recomputed here, the selection is the model's
+      let (x, rest) ← takeVec n rest
+      match rest with
+      | eps :: nc :: rest => do
+        let eps ← parseFloatBits? eps
+        let nc ← nc.toNat?
+        let rec go (k : Nat) (ts : List String) (acc : List (Nat × Bool × Float)) : Option (List (Nat × Bool × Float)) :=
+          match k with
+          | 0 => if ts.isEmpty then some acc.reverse else none
+          | k + 1 =>
+            match ts with
+            | cid :: inP :: ts => do
+              let cid ← cid.toNat?
+              let inP ← parseBool? inP
+              let (t, ts) ← takeVec n ts
+              go k ts ((cid, inP, distF x t) :: acc)
+            | _ => none
+        let cands ← go nc rest []
+        match owningChartSelect A eps cands with
+        | some c => pure (st, s!"own={c}")
+        | none => pure (st, "own=-1")
+      | _ => none
+    | ["gck", cached, force, own, fresh] => do
+      let toOpt (t : String) : Option (Option Nat) := if t == "-1" then some none else t.toNat?.map some
+      let cached ← toOpt cached
+      let force ← parseBool? force
+      let own ← toOpt own
+      let fresh ← toOpt fresh
+      let r := getChartSelect cached force own fresh
+      let sh : Option Nat → String := fun o => match o with | some c => toString c | none => "-1"
+      pure (st, s!"ret={sh r.1} created={b01 r.2} consulted={b01 (cached.isNone || force)}")
     | _ => none
   -- ConstrainedStateSpace::setDelta / setLambda mid-script: read at call time by every traversal that follows
   let setOp : Option (StA × String) :=
@@ -421,7 +454,7 @@ def stepA (st : StA) (ts : List String) : StA × String :=
   | some out => (st, out)
   | none =>
     match ts with
-    | "nch" :: _ | "gh" :: _ | "ipk" :: _ | "bck" :: _ => (st, "bad-op")
+    | "nch" :: _ | "gh" :: _ | "ipk" :: _ | "bck" :: _ | "own" :: _ | "gck" :: _ => (st, "bad-op")
     | "ageo" :: _ | "tgeo" :: _ | "tinterp" :: _ | "asu" :: _ | "asn" :: _ => (st, "bad-op")
     | "gms" :: _ | "tgms" :: _ | "tsicm" :: _ | "vs" :: _ => (st, "bad-op")
     | _ =>
